@@ -105,13 +105,63 @@ fn peer_params(remote_addr: IpAddr, cfg: &RigCfg) -> PeerParams {
     }
 }
 
+/// The listeners of this process, reused by every `loopback_pair` (the first is used until a connect
+/// to it fails).  A listener per pair exhausts the ephemeral ports: every closed connection leaves a
+/// TIME_WAIT socket that keeps its port's bind bucket for 60 s, a thorough run (12 harness processes)
+/// makes tens of thousands of connections in that time, and `bind(127.0.0.1:0)` then fails with
+/// EADDRINUSE in every later case.  With one listener `bind` is called once per process, and a
+/// `connect` needs only a free 4-tuple towards that listener (and may reuse a TIME_WAIT one on
+/// loopback, tcp_tw_reuse=2).
+static LISTENERS: std::sync::Mutex<Vec<std::net::TcpListener>> = std::sync::Mutex::new(Vec::new());
+
+fn std_pair_on(l: &std::net::TcpListener) -> std::io::Result<(std::net::TcpStream, std::net::TcpStream)> {
+    let client = std::net::TcpStream::connect(l.local_addr()?)?;
+    let me = client.local_addr()?;
+    // the connection just made is at the listener's queue; one left there by a pair that failed half
+    // way (never observed) is dropped
+    loop {
+        let (server, from) = l.accept()?;
+        if from == me {
+            return Ok((client, server));
+        }
+    }
+}
+
 /// A connected loopback TCP pair, made with blocking std sockets: nothing here waits on the
 /// runtime (its clock is paused; a parked runtime would auto-advance it to the next session timer).
-fn loopback_pair() -> (tokio::net::TcpStream, tokio::net::TcpStream) {
-    let listener = std::net::TcpListener::bind("127.0.0.1:0").unwrap();
-    let addr = listener.local_addr().unwrap();
-    let client = std::net::TcpStream::connect(addr).unwrap();
-    let (server, _) = listener.accept().unwrap();
+/// Out of ports (see `LISTENERS`): another listener is tried, then real time is given to the kernel
+/// to expire TIME_WAIT sockets (a thread sleep: the runtime's paused clock does not move); the
+/// error is a panic only after two minutes of that.
+pub fn loopback_pair() -> (tokio::net::TcpStream, tokio::net::TcpStream) {
+    let mut ls = LISTENERS.lock().unwrap_or_else(|e| e.into_inner());
+    let t0 = std::time::Instant::now();
+    let (client, server) = loop {
+        let mut last_err = None;
+        if let Some(l) = ls.last() {
+            match std_pair_on(l) {
+                Ok(p) => break p,
+                Err(e) => last_err = Some(e),
+            }
+        }
+        match std::net::TcpListener::bind("127.0.0.1:0") {
+            Ok(l) => {
+                // at most a handful of listeners are kept
+                if ls.len() >= 8 {
+                    ls.remove(0);
+                }
+                ls.push(l);
+                if last_err.is_none() {
+                    continue;
+                }
+            }
+            Err(e) => last_err = Some(e),
+        }
+        if t0.elapsed() > std::time::Duration::from_secs(120) {
+            panic!("rig: no loopback TCP pair after 120 s: {:?}", last_err);
+        }
+        std::thread::sleep(std::time::Duration::from_millis(200));
+    };
+    drop(ls);
     for s in [&client, &server] {
         s.set_nonblocking(true).unwrap();
         s.set_nodelay(true).unwrap();
